@@ -139,6 +139,7 @@ type chainRig struct {
 	gw       *http.Server
 	gwAddr   string
 	up       *httptest.Server
+	upPlain  *httptest.Server // the same stub upstream behind plain http
 	mgr      clusters.Manager
 	mu       sync.Mutex
 	cur      *chainCase
@@ -252,6 +253,24 @@ func (r *chainRig) upstreamHandler(w http.ResponseWriter, req *http.Request) {
 	if st == 0 {
 		st = 200
 	}
+	if st == 101 {
+		// accept a connection upgrade: switch protocols, send the scripted bytes on the raw stream, close
+		hj, ok := w.(http.Hijacker)
+		if !ok {
+			w.WriteHeader(500)
+			return
+		}
+		conn, brw, err := hj.Hijack()
+		if err != nil {
+			return
+		}
+		defer conn.Close()
+		_ = conn.SetDeadline(time.Now().Add(10 * time.Second))
+		_, _ = brw.WriteString("HTTP/1.1 101 Switching Protocols\r\nConnection: Upgrade\r\nUpgrade: " + req.Header.Get("Upgrade") + "\r\n\r\n")
+		_, _ = brw.Write(genBody(c.Reply.Body))
+		_ = brw.Flush()
+		return
+	}
 	w.WriteHeader(st)
 	if req.Method != "HEAD" && st != 204 && st != 304 {
 		_, _ = w.Write(genBody(c.Reply.Body))
@@ -306,6 +325,7 @@ func newChainRig() *chainRig {
 	r := &chainRig{mgr: clusters.NewManager()}
 	r.up = httptest.NewUnstartedServer(http.HandlerFunc(r.upstreamHandler))
 	r.up.StartTLS()
+	r.upPlain = httptest.NewServer(http.HandlerFunc(r.upstreamHandler))
 
 	// a port on which nothing listens (connection refused)
 	l, err := net.Listen("tcp", "127.0.0.1:0")
@@ -314,6 +334,7 @@ func newChainRig() *chainRig {
 	l.Close()
 
 	r.addCluster("ok.test", r.up.URL, false, nil, "")
+	r.addCluster("plain.test", r.upPlain.URL, false, nil, "")
 	r.addCluster("limited.test", r.up.URL, false, []proxyv1alpha1.FlowControlSchema{{
 		Name: "zero",
 		FlowControlSchemaConfiguration: proxyv1alpha1.FlowControlSchemaConfiguration{
@@ -387,11 +408,17 @@ func (r *chainRig) roundTrip(c *chainCase) (*http.Response, []byte) {
 	}
 	_, err = conn.Write(buf.Bytes())
 	must(err)
-	resp, err := http.ReadResponse(bufio.NewReader(conn), &http.Request{Method: c.Method})
+	br := bufio.NewReader(conn)
+	resp, err := http.ReadResponse(br, &http.Request{Method: c.Method})
 	if err != nil {
 		return nil, nil
 	}
 	defer resp.Body.Close()
+	if resp.StatusCode == 101 {
+		// switched protocols: whatever follows on the raw stream until the gateway closes it
+		rb, _ := ioutil.ReadAll(br)
+		return resp, rb
+	}
 	rb, rerr := ioutil.ReadAll(resp.Body)
 	if rerr != nil {
 		resp.Header.Set("X-Verif-Aborted", rerr.Error()) // the response stream was cut (see run)
@@ -448,7 +475,12 @@ func (r *chainRig) run(raw json.RawMessage) interface{} {
 	for {
 		resp, rb = r.roundTrip(&c)
 		// only a RELAYED answer can be cut this way: the upstream must have seen the request
-		cut := resp != nil && r.upstreamCount() > 0 && (resp.Header.Get("X-Verif-Aborted") != "" || cutByUpstreamError(&c, rb))
+		scripted := c.Reply.Status
+		if scripted == 0 {
+			scripted = 200
+		}
+		cut := resp != nil && r.upstreamCount() > 0 && resp.StatusCode == scripted && resp.StatusCode != 101 &&
+			(resp.Header.Get("X-Verif-Aborted") != "" || cutByUpstreamError(&c, rb))
 		if !cut || retries == 3 {
 			break
 		}
